@@ -16,7 +16,7 @@ cp "$SD/demo_test.go" $DEMO
 echo "== demo without the change (must pass)"
 go test -vet=off -count=1 ./$PKG/ -run 'Seed|seed|Demo|demo' 2>&1 | tail -3
 rm -f $DEMO
-git apply "$SD/patch.diff" || { echo "PATCH DOES NOT APPLY"; exit 2; }
+git apply "$SD/patch.diff" 2>/dev/null || git apply --3way "$SD/patch.diff" || { echo "PATCH DOES NOT APPLY"; exit 2; }
 echo "== build"
 go build ./... 2>&1 | tail -3 && echo build-ok
 echo "== existing tests with the change"
